@@ -131,6 +131,26 @@ def generate(src):
                 "        inner = util.replace_html_entities(util.remove_nowiki_tags(inner))"):
         if lit not in ctxt:
             raise RuntimeError("refine/core.py: create_nowiki / create_pre no longer decode as transcribed (%r)" % lit[:60])
+    # --- util.remove_nowiki_tags (coq/C09/PreModel.v): pattern, flags, replacement
+    if "remove_nowiki_tags" not in funcs:
+        raise RuntimeError("util.py: remove_nowiki_tags not found")
+    rn = funcs["remove_nowiki_tags"]
+    rn_sig = ast.unparse(rn.args)
+    rn_body = ast.unparse(rn.body)
+    if rn_sig != "txt, _rx=re.compile('<nowiki>(.*?)</nowiki>', re.IGNORECASE | re.DOTALL)" or rn_body != "return _rx.sub(lambda mo: mo.group(1), txt)":
+        raise RuntimeError("util.remove_nowiki_tags no longer has the transcribed shape: (%s) %s" % (rn_sig, rn_body))
+    # the non-ASCII code points that IGNORECASE (Unicode, no (?a)) folds onto the characters of "<nowiki>" / "</nowiki>"
+    allstr = "".join(chr(c) for c in range(0x110000))
+    nowiki_fold = []
+    for l in sorted(set("</nowiki>")):
+        hits = [ord(ch) for ch in re.compile(re.escape(l), re.IGNORECASE).findall(allstr)]
+        want = {ord(l), ord(l.upper())}
+        if {h for h in hits if h < 128} != want:
+            raise RuntimeError("unexpected ASCII fold for %r: %r" % (l, hits[:8]))
+        extra = [h for h in hits if h >= 128]
+        if extra and not l.isalpha():
+            raise RuntimeError("IGNORECASE folds non-ASCII code points onto %r" % l)
+        nowiki_fold += [(h, ord(l)) for h in extra]
     # --- tables of the running CPython
     allc = [chr(c) for c in range(0x110000)]
     ws_rx, nd_rx = re.compile(r"\s"), re.compile(r"\d")
@@ -179,6 +199,8 @@ def generate(src):
          "(* str.lower() on the non-ASCII foldable code points *)",
          "Definition py_lower_extra : list (N * list N) := [" + "; ".join("(%d, %s)" % (c, nlist(l)) for c, l in py_lower) + "].", "",
          "(* util.replace_html_entities: false = re.sub('&[^;]*;', ..), true = the strict pattern of the scanner's entity rule *)",
-         "Definition ent_strict : bool := %s." % ("true" if ent_strict else "false"), ""]
+         "Definition ent_strict : bool := %s." % ("true" if ent_strict else "false"), "",
+         "(* util.remove_nowiki_tags: non-ASCII code points c that match the pattern character l of '<nowiki>(.*?)</nowiki>' under re.IGNORECASE: (c, l) *)",
+         "Definition nowiki_fold_extra : list (N * N) := " + pairs(nowiki_fold) + ".", ""]
     core.write_if_changed(os.path.join(core.COQ, "C09", "Gen_tables.v"), "\n".join(v))
-    return {"names": names, "ws": ws, "nd": nd, "fold": fold, "ascii_fold": name_wrap != "%s", "ent_strict": ent_strict}
+    return {"names": names, "ws": ws, "nd": nd, "fold": fold, "ascii_fold": name_wrap != "%s", "ent_strict": ent_strict, "nowiki_fold": nowiki_fold}
